@@ -204,6 +204,10 @@ def gen_string(rng, cls):
         return a + rng.choice(['"\\d', '\\d"', '"x\\ ']) + b  # always an invalid escape when rendered unescaped
     if cls == "control-char":
         return a + rng.choice(["\t", "\n", "\r", "\x01", "\x1f", "\x08", "\x0c", "\x00"]) + b
+    if cls == "string-mixed":  # a character that needs a JSON escape AND characters of 2, 3 and 4 bytes in ONE string, in both orders
+        esc = rng.choice(['"', "\\d", "\n", "\t", "\x01", '"\\ '])
+        wide = "".join(rng.choice(["é", "ż", "ß", "中", "總", "\u00a0", "ا", "\U0001F600", "\U00010000"]) for _ in range(rng.randint(1, 4)))
+        return a + (esc + b + wide if rng.random() < 0.5 else wide + b + esc) + rng.choice(["", wide, esc])
     if cls == "string-non-ascii":
         return a + "".join(rng.choice(["é", "ż", "ß", "中", "\u2028", "\ufffd", "\u00a0", "\x7f", "ا"]) for _ in range(rng.randint(1, 4))) + b
     if cls == "string-astral":
@@ -221,8 +225,11 @@ STRING_CLASSES = [
     "control-char",
     "string-non-ascii",
     "string-astral",
+    "string-mixed",
 ]
 HOSTILE_CLASSES = {
+    "string-mixed",
+    "context-key-mixed",
     "string-json-injection",
     "string-with-quote",
     "string-with-backslash",
@@ -293,6 +300,7 @@ KEY_CLASSES = {
     "context-key-backslash": ["b\\k", "dir\\", "\\d"],
     "context-key-control-char": ["t\tk", "line\nbreak", "\x01"],
     "context-key-non-ascii": ["kluczż", "键", "\U0001F600k"],
+    "context-key-mixed": ['kluczż "q"', "键\\d", 'a"\U0001F600k', "é\tż"],
 }
 
 
